@@ -747,6 +747,16 @@ func crashGen(r *rand.Rand, n int, thorough bool) []Case {
 				tags = append(tags, "reopen")
 			}
 		}
+		if c%3 == 0 {
+			// one large transaction at the end (its wal batch is far above 32 KiB): it must still reach the wal by one write
+			// and be visible completely or not at all at every crash point inside its Commit
+			var kvs []string
+			for j := 0; j < 3+r.Intn(2); j++ {
+				kvs = append(kvs, hxs(userKeys[r.Intn(nk)]+fmt.Sprintf("-big%d", j))+"="+hx(bytes.Repeat([]byte{byte('A' + j)}, 11000+r.Intn(3000))))
+			}
+			ops = append(ops, "txn "+strings.Join(kvs, ","))
+			tags = append(tags, "large-batch")
+		}
 		cases = append(cases, Case{Ops: ops, Tags: tags})
 	}
 	return cases
